@@ -21,6 +21,10 @@ Definition rel_ev (read : bool) (g l : N) (a : access) : ev06 :=
       else {| e_kind := 1; e_w := n; e_g := wsub d g; e_l := wsub s l; e_side := 0 |}
   end.
 
+(* a primitive access as an event of the memory semantics of Spec/C06.v *)
+Definition mev_of (a : access) : mev :=
+  match a with Acc w s d => MCopy w s d | Bulk s d n => MCopy n s d end.
+
 (* the local address: chosen by the harness (LB + loff) or, for by-value objects, observed *)
 Definition local_addr (c : case06) (obs_lres : N) : N :=
   if ep_unctl (c_ep c) then LB + obs_lres mod 8 else LB + c_loff c.
